@@ -409,3 +409,6 @@ func readSlotMem(m []byte) []inflightCase {
 	}
 	return []inflightCase{{binary.LittleEndian.Uint64(m[0:]), string(m[20 : 20+cl]), append([]byte(nil), m[20+cl:20+cl+kl]...)}}
 }
+
+// Fingerprint is the 64-bit fingerprint of a case (for selectors that must be a function of the case).
+func Fingerprint(class string, key []byte) uint64 { return fingerprint(class, key) }
